@@ -684,6 +684,8 @@ def _len_fact_ok(facts, base, k):
                 n = int(m.group(2)) + (1 if m.group(1) == '>' else 0)
                 if n >= need:
                     return True
+            if pol and txt in ('len(%s) != 0' % b, 'len(%s) > 0' % b, '0 < len(%s)' % b, '0 != len(%s)' % b) and need <= 1:
+                return True
             m = re.match(r'len\(%s\) (!=|<) (\d+)$' % re.escape(b), txt)
             if m and not pol:
                 n = int(m.group(2))
